@@ -286,12 +286,38 @@ class Region:
         return events, silent, False
 
 
+def region_with_std_oracle(mir, body, call_oracle, event_of, field_oracle=None, depth=3):
+    """a Region over `body` whose call oracle knows the Option / bool / Result adaptors of std, evaluates closures handed to them
+    and small functions of the crate recursively (as `returns` does), and asks `call_oracle` for everything else"""
+    return _build(mir, body, call_oracle, field_oracle, depth, event_of)
+
+
 def returns(mir, body, env0, call_oracle, field_oracle=None, depth=3):
     """the set of abstract values the body can return when started with env0 (closures handed to the Option / bool / Result
     adaptors of std are evaluated recursively; everything else goes to call_oracle)"""
+    def event(kind, bb, idx, node, env, R):
+        if kind == 'term' and node['k'] == 'return':
+            v = R.get(env, {'l': 0, 'p': []})
+            return ('ret', repr(v))
+        return None
+    R0 = _build(mir, body, call_oracle, field_oracle, depth, event)
+    CURRENT.append(R0)
+    try:
+        evs, silent, over = R0.run(0, dict(env0))
+    finally:
+        CURRENT.pop()
+    out = set()
+    for e in evs:
+        if isinstance(e, tuple) and e[0] == 'ret':
+            out.add(eval(e[1]) if e[1] != 'None' else UNKNOWN)
+    if over:
+        out.add(UNKNOWN)
+    return out
+
+
+def _build(mir, body, call_oracle, field_oracle, depth, event_of):
     from .facts import strip_generics, callee_name, op_place
     from . import mirq
-    rets = set()
 
     def closure_body(b, op):
         p = op_place(op)
@@ -396,7 +422,8 @@ def returns(mir, body, env0, call_oracle, field_oracle=None, depth=3):
             cs = mir.by_nid.get(strip_generics(cal), [])
             cb = cs[0] if len(cs) == 1 else None
         if cb is not None and depth > 0 and cb.kind == 'fn' and len(cb.blocks) <= 40:
-            e0 = {}
+            # '#name' entries are the caller-supplied symbolic heap (what oracle references point at): visible in every frame
+            e0 = {k_: v_ for k_, v_ in env.items() if k_.startswith('#') and not k_.startswith(('#arg', '#env'))}
             for i, a in enumerate(vals):
                 if a is not UNKNOWN:
                     if isinstance(a, tuple) and a and a[0] == 'ref':
@@ -411,22 +438,5 @@ def returns(mir, body, env0, call_oracle, field_oracle=None, depth=3):
             return next(iter(rs)) if len(rs) == 1 else UNKNOWN
         return UNKNOWN
 
-    def event(kind, bb, idx, node, env, R):
-        if kind == 'term' and node['k'] == 'return':
-            v = R.get(env, {'l': 0, 'p': []})
-            return ('ret', repr(v))
-        return None
-
-    R0 = Region(body, oracle, event, field_oracle)
-    CURRENT.append(R0)
-    try:
-        evs, silent, over = R0.run(0, dict(env0))
-    finally:
-        CURRENT.pop()
-    out = set()
-    for e in evs:
-        if isinstance(e, tuple) and e[0] == 'ret':
-            out.add(eval(e[1]) if e[1] != 'None' else UNKNOWN)
-    if over:
-        out.add(UNKNOWN)
-    return out
+    R0 = Region(body, oracle, event_of, field_oracle)
+    return R0
